@@ -214,6 +214,23 @@ class SpecEval:
                     pats.append(to_z(p))
         if skolem:
             return VBool(body)
+        if which == 'exists' and self.goal:
+            # witness hints: exists x. P(x) is implied by P(w) for each supplied witness term w
+            alts = []
+            for kw in n.keywords:
+                if kw.arg == 'wit':
+                    ws = kw.value.elts if isinstance(kw.value, (ast.List, ast.Tuple)) else [kw.value]
+                    for w in ws:
+                        wv = self.neg().ev(w)
+                        env2 = dict(self.env)
+                        env2[names[0]] = VInt(self.eng.as_int(wv)[0])
+                        inner2 = SpecEval(self.eng, self.st, env2, self.old, False)
+                        b2 = inner2.b(lam.body)
+                        if len(n.args) == 3:
+                            b2 = z3.And(lo <= env2[names[0]].z, env2[names[0]].z < hi, b2)
+                        alts.append(b2)
+            if alts:
+                return VBool(z3.Or([safe_exists(vs, body, patterns=pats)] + alts))
         if which == 'forall':
             return VBool(safe_forall(vs, body, patterns=pats))
         return VBool(safe_exists(vs, body, patterns=pats))
